@@ -167,6 +167,7 @@ SERIAL_FNS = ["lemma_pool_bytes_is_pf", "StringRef::write", "ColumnType::write_v
 PROPS["C01"]["verus"]["serial"] = SERIAL_FNS
 PROPS["C08"]["verus"]["serial"] = SERIAL_FNS
 
+PROPS["C10"]["verus"]["readers"] = ["PropertyValue::read", "PropertySet::read", "PropertyValue::minimum_version", "Timestamp::read_from"]
 PROPS["C10"]["verus"]["serial"] = ["PropertyValue::encoded_size_including_padding", "PropertyValue::write", "Timestamp::write_to", "lemma_pad"]
 
 PROPS["C15"] = {
@@ -182,6 +183,7 @@ PROPS["C15"] = {
 
 READER_FNS = ["StringRef::read", "ColumnType::read_value", "Timestamp::read_from", "PropertyValue::read",
               "StringPoolBuilder::read_from_pool", "StringPoolBuilder::build_from_data",
+              "PropertyValue::minimum_version", "PropertySet::read",
               "lemma_ref_join", "lemma_unoffset16", "lemma_unoffset32", "lemma_zero32", "lemma_header_bits"]
 PROPS["C02"]["verus"]["readers"] = READER_FNS
 PROPS["C09"]["verus"]["readers"] = READER_FNS
